@@ -484,9 +484,11 @@ class RevertPartial(Spec):
         w = STensor.sym(cx, "w_weight", (n, k), "real")
         old = {"x": T("old_x", (n,)), "y": T("old_y", (n, k)), "z": T("old_z", (n, k, f)),
                "w": SymObj(WeightedTensor, dict(value=T("old_w", (n, k)), weight=w)),
+               "p": SymObj(WeightedTensor, dict(value=T("old_p", (n, k)), weight=None)),      # a weighted tensor without weights
                "u": None, "v": T("old_v", (n,))}
         cur = {"x": T("cur_x", (n,)), "y": T("cur_y", (n, k)), "z": T("cur_z", (n, k, f)),
                "w": SymObj(WeightedTensor, dict(value=T("cur_w", (n, k)), weight=w)),
+               "p": SymObj(WeightedTensor, dict(value=T("cur_p", (n, k)), weight=None)),
                "u": T("cur_u", (n,)), "v": None, "q": T("cur_q", (n,))}
         if cfg["mask"] == "bool":
             mask = STensor.sym(cx, "mask", (n,), "bool")
@@ -518,7 +520,7 @@ class RevertPartial(Spec):
         def mk(i):
             e = mask.fn((i,))
             return e if mask.dtype == "bool" else e != 0
-        for key in ("x", "y", "z", "w"):
+        for key in ("x", "y", "z", "w", "p"):
             nv = vals.get(key)
             o, c = old[key], cur[key]
             if isinstance(o, SymObj):
@@ -526,8 +528,12 @@ class RevertPartial(Spec):
                 res.append((f"{key}: still a weighted tensor", z3.BoolVal(ok)))
                 if not ok:
                     continue
-                wt_ok = nv.f["weight"] is not None
-                res.append((f"{key}: weight kept", z3.BoolVal(wt_ok)))
+                if o.f["weight"] is None:
+                    res.append((f"{key}: still without weights", z3.BoolVal(nv.f.get("weight") is None)))
+                    wt_ok = False
+                else:
+                    wt_ok = nv.f["weight"] is not None
+                    res.append((f"{key}: weight kept", z3.BoolVal(wt_ok)))
                 nv_t, o_t, c_t = nv.f["value"], o.f["value"], c.f["value"]
                 if wt_ok:
                     idx = o_t.fresh_idx(cx, "e")
